@@ -412,9 +412,11 @@ func (v *SequenceDiagramVisitor) visitEndpoint(e *EndpointElement) error {
 		_, hitVisited := v.visited[visiting]
 
 		if (hitUpto && upto.ValueType != UpTo) || hitVisited {
+			activated := false
 			if upto != nil {
 				if len(payload) > 0 {
 					v.w.Activate(agent)
+					activated = true
 					if len(upto.Comment) > 0 {
 						fmt.Fprintf(v.w, "note over %s: %s\n", agent, upto.Comment)
 					}
@@ -430,7 +432,11 @@ func (v *SequenceDiagramVisitor) visitEndpoint(e *EndpointElement) error {
 				if !isHidden {
 					fmt.Fprintf(v.w, "%s<--%s : %s\n", sender, agent, payload)
 				}
-				v.w.Deactivate(agent)
+				// only end the activation started above: an endpoint that is merely
+				// shown as already in progress keeps the activation of its expansion
+				if activated {
+					v.w.Deactivate(agent)
+				}
 			}
 		} else {
 			deactivate := v.w.Activated(agent, isHuman || isCron)
